@@ -99,6 +99,7 @@ def parseStateRec (s : String) : StateRec :=
     closure chain built up by earlier prints (cells outside the size are never inspected), and drop the print
     log (the oracle only ever looks at the entries added by the current operation) -/
 def compactVT (vt : VT) : VT :=
+  if vt.w * vt.h > 40000 then { vt with log := [] } else   -- very large terminals: keep the closure chain (scripts are short)
   let n := vt.w * vt.h
   let tab (b : Bool) : Array Cell := Array.ofFn (n := n) fun i => vt.cells b (i.val % vt.w) (i.val / vt.w)
   let a0 := tab false
@@ -116,6 +117,7 @@ structure OSt where
   lastBuf : Option Bool := none
   lastMouse : Option Bool := none
   lastTitle : Option (List Byte) := none
+  erased : Bool := false                -- an erase has happened: wrong-looking text after it also concerns C09
   fails : List String := []
 
 def OSt.fail (s : OSt) (msg : String) : OSt := { s with fails := s.fails ++ [msg] }
@@ -130,10 +132,15 @@ def opInDomain (st : OSt) : Op → Bool
   | .rawWrite _ => false
   | _ => true
 
+/-- the rows / columns inspected by the grid checks: all of them, except on very large terminals (more than 40000
+    cells), where the first and last few and the ones around the cursor are inspected -/
+def probe (n c : Nat) (total : Nat) : List Nat :=
+  if total ≤ 40000 then List.range n
+  else ([0, 1, 2, c - 2, c - 1, c, c + 1, c + 2, n / 2, n - 3, n - 2, n - 1].filter (· < n)).eraseDups
 def gridEqOn (a b : VT) (p : Nat → Nat → Bool) : Bool :=
-  (List.range a.h).all fun y => (List.range a.w).all fun x => !(p x y) || decide (a.cell x y = b.cell x y)
+  (probe a.h a.cy (a.w * a.h)).all fun y => (probe a.w a.cx (a.w * a.h)).all fun x => !(p x y) || decide (a.cell x y = b.cell x y)
 def gridAllOn (a : VT) (p : Nat → Nat → Bool) (c : Cell) : Bool :=
-  (List.range a.h).all fun y => (List.range a.w).all fun x => !(p x y) || decide (a.cell x y = c)
+  (probe a.h a.cy (a.w * a.h)).all fun y => (probe a.w a.cx (a.w * a.h)).all fun x => !(p x y) || decide (a.cell x y = c)
 
 /-- positions of the glyphs printed since `n0`, checked against the specification-level expectation -/
 def checkPositions (i : Nat) (w : Nat) : OSt → List (Nat × Nat × Cell) → OSt
@@ -152,8 +159,9 @@ def checkWrite (i : Nat) (st : OSt) (es : List Element) (bytes : List Byte) : OS
   let vt := before.feedAll bytes
   let new := vt.log.drop before.log.length
   let st := { st with vt := vt, rendKnown := true }
+  let c09 := if st.erased then s!" C09@{i} (text after an erase)" else ""
   let st := if new.map (·.2.2) = es.map cellOf then st
-    else st.fail s!"C01@{i} C17@{i} cells shown differ from the elements requested ({new.length} glyphs for {es.length} elements)"
+    else st.fail s!"C01@{i} C17@{i}{c09} cells shown differ from the elements requested ({new.length} glyphs for {es.length} elements)"
   let st := if new.flatMap (·.2.2.bytes) = es.flatMap (·.glyph.text) then st
     else st.fail s!"C17@{i} glyph bytes on the wire differ from to_string"
   if st.sized then checkPositions i vt.w st new else { st with exp := none }
@@ -192,7 +200,7 @@ def checkOp (c : OCfg) (beh : Behaviour) (i : Nat) (st : OSt) (op : Op) (bytes :
     | .erase k =>
       let vt := before.feedAll bytes
       let reg := eraseRegion k before.cx before.cy
-      let st := { st with vt := vt, rendKnown := true }
+      let st := { st with vt := vt, rendKnown := true, erased := true }
       let st := if gridAllOn vt reg Cell.blank then st else st.fail s!"C09@{i} C03@{i} erased region is not default-attribute blanks"
       let st := if gridEqOn before vt (fun x y => !(reg x y)) then st else st.fail s!"C09@{i} cells outside the erased region changed"
       let st := if (vt.cx, vt.cy, vt.pending) = (before.cx, before.cy, before.pending) then st else st.fail s!"C09@{i} erase moved the cursor"
